@@ -141,11 +141,11 @@ Print Assumptions C19_relative_end_direct.
 Example C19_nonvacuous :
   let ops := [ODecimal 29 2; ODuration 3600500000000; OInstant 1709208000 0;
               ORelEnd 0 90500000000 1709208000600000000 1709208030800000000] in
-  map snd (snd (run init ops)) =
-    [[DecScaled (dec 29 2) 29 (-2) (dec 29 2)];
-     [DurText {| t_neg := false; t_y := 0; t_mo := 0; t_w := 0; t_d := 0; t_h := 10; t_mi := 0; t_s := 5 |} (Some 3600500000000)];
-     [Instant {| d_y := 2024; d_mo := 2; d_d := 29; d_h := 12; d_mi := 0; d_s := 0 |} (Some 1709208000)];
-     [RelEnd {| d_y := 2024; d_mo := 2; d_d := 29; d_h := 12; d_mi := 1; d_s := 31 |}
-             {| t_neg := false; t_y := 0; t_mo := 0; t_w := 0; t_d := 0; t_h := 0; t_mi := 10; t_s := 0 |} (Some 60000000000)]] /\
+  map (fun x => map print_obs (snd x)) (snd (run init ops)) =
+    [[[1] ++ wire_of_b64 (dec 29 2) ++ [29; -2] ++ wire_of_b64 (dec 29 2)];
+     [[2] ++ ptext_wire {| t_neg := false; t_y := 0; t_mo := 0; t_w := 0; t_d := 0; t_h := 10; t_mi := 0; t_s := 5 |} ++ zopt (Some 3600500000000)];
+     [[3] ++ dtext_wire {| d_y := 2024; d_mo := 2; d_d := 29; d_h := 12; d_mi := 0; d_s := 0 |} ++ zopt (Some 1709208000)];
+     [[4] ++ dtext_wire {| d_y := 2024; d_mo := 2; d_d := 29; d_h := 12; d_mi := 1; d_s := 31 |}
+          ++ ptext_wire {| t_neg := false; t_y := 0; t_mo := 0; t_w := 0; t_d := 0; t_h := 0; t_mi := 10; t_s := 0 |} ++ zopt (Some 60000000000)]] /\
   strictly_accepted (judge minit sinit (snd (run init ops))) = true.
 Proof. vm_compute. split; reflexivity. Qed.
